@@ -2,6 +2,8 @@
 From LV Require Import Base Toml FS LayerEnv LayerShared LayerEnvFS SpecDocs LayerStore LayerStoreSpec LayerStoreFacts.
 From LV.Checks Require Import C01Hold C01Agree.
 From LVGen Require Import GenLayerShared.
+From LVGen Require GenLayerSharedImp.
+From LV Require LayerSboms LayerSbomsFacts LayerSharedFacts.
 From Coq Require Import String.
 Open Scope string_scope.
 Open Scope N_scope.
@@ -106,3 +108,46 @@ Example c01_nonvacuous :
   let '(_, calls, r) := do_request true (QCached false true MV (IDelete 1) (RKeep 5)) (b "a") st in
   r = Ok (SRestored 5) /\ calls = [CallRestored (Some [(k_version, TStr [49])])] /\ l_sboms (lget (b "a") st) = [(b "cdx.json", [7])].
 Proof. vm_compute. repeat split. Qed.
+
+(* ---- shared::replace_layer_sboms (behind LayerRef::write_sboms and the trait API's write_layer),
+   at the level of the file system.  The body is regenerated statement by statement from
+   libcnb/src/layer/shared.rs on every run (imp.rs, result monad -> GenLayerSharedImp.v) and IS the
+   model: *)
+Theorem c01_replace_sboms_regenerated :
+  forall layers n sboms s,
+    LVGen.GenLayerSharedImp.gen_replace_layer_sboms layers n sboms s =
+    LV.LayerSboms.replace_layer_sboms
+      (map LV.LayerSbomsFacts.sbom_suffix_of LVGen.GenLayerSharedImp.SBOM_FORMATS) layers n
+      (map (fun fd => (LV.LayerSbomsFacts.sbom_suffix_of (fst fd), snd fd)) sboms) s.
+Proof. exact LV.LayerSbomsFacts.replace_sboms_regenerated. Qed.
+Print Assumptions c01_replace_sboms_regenerated.
+
+(* whatever the outcome (missing layer, a failing unlink or write half way), for every file system in
+   which the layers directory is reached through real directories and none of the layer's SBOM
+   entries is a symbolic link: every path other than the layer's SBOM paths keeps its entry -- other
+   layers, their TOML and SBOM files and the layer's own directory are untouched *)
+Theorem c01_replace_sboms_frame :
+  forall suffixes layers n sboms,
+    (forall sx, In sx (suffixes ++ map fst sboms) -> LV.LayerSharedFacts.valid_path (LV.LayerSboms.sbom_path layers n sx)) ->
+    forall s s' r,
+      LV.LayerSbomsFacts.inv layers n (suffixes ++ map fst sboms) s ->
+      LV.LayerSboms.replace_layer_sboms suffixes layers n sboms s = (s', r) ->
+      LV.LayerSbomsFacts.only_sboms layers n (suffixes ++ map fst sboms) s s'.
+Proof. exact LV.LayerSbomsFacts.replace_sboms_frame. Qed.
+Print Assumptions c01_replace_sboms_frame.
+
+(* a reported success leaves exactly the SBOM files handed over -- the last one of each format, with
+   that content -- and no SBOM file of any other format: nothing of an earlier build survives *)
+Theorem c01_replace_sboms_exact :
+  forall suffixes layers n sboms,
+    (forall sx, In sx (suffixes ++ map fst sboms) -> LV.LayerSharedFacts.valid_path (LV.LayerSboms.sbom_path layers n sx)) ->
+    forall s s',
+      LV.LayerSbomsFacts.inv layers n (suffixes ++ map fst sboms) s ->
+      LV.LayerSboms.replace_layer_sboms suffixes layers n sboms s = (s', Ok tt) ->
+      forall sx, In sx (suffixes ++ map fst sboms) ->
+        match LV.LayerSboms.last_data sx sboms with
+        | Some d => exists m, pget (LV.LayerSboms.sbom_path layers n sx) s' = Some (File m (Raw d))
+        | None => pget (LV.LayerSboms.sbom_path layers n sx) s' = None
+        end.
+Proof. exact LV.LayerSbomsFacts.replace_sboms_exact. Qed.
+Print Assumptions c01_replace_sboms_exact.
